@@ -6,6 +6,7 @@ CONSTANTS
   Quals = {}
   MaxSub = 0
   MaxBlocks = 0
+  MaxEvents = 0
   MaxLen = 0
   Defects = {}
 INVARIANT Report
